@@ -42,7 +42,8 @@ type Conn struct {
 	Quiet    bool  // do not emit observations for publishes (used by bulk sequential checks)
 	Pubs     []Msg // every publish, in order (thread-confined users only: sequential checks)
 	KeepPubs bool
-	Lenient  bool // accept invalid subscription subjects (like the repository's own mock)
+	Lenient  bool      // accept invalid subscription subjects (like the repository's own mock)
+	OnPub    func(Msg) // called on the publishing thread for every successful publish
 }
 
 // Msg is a recorded publish.
@@ -111,6 +112,9 @@ func (c *Conn) PublishRequest(subject, reply string, payload []byte) error {
 			vsched.Emit(Mon, "pubfail "+subject)
 		}
 		return ErrPubFail
+	}
+	if c.OnPub != nil {
+		c.OnPub(Msg{subject, reply, string(payload)})
 	}
 	if !c.Quiet {
 		if reply != "" {
